@@ -639,7 +639,7 @@ func (w *world) checkAccepted(vj *jwt.VerifiedJWT, tp *tokenPlan, ctx string) {
 	r := w.r
 	want := tp.model.Claims
 	bad := func(what string, args ...any) {
-		r.Violation("C09/returned-claims-differ:"+what, ctx+": "+fmt.Sprintf(what+": "+fmt.Sprint(args...))+fmt.Sprintf(" (signed claims %v)", want))
+		r.Violation("C09/returned-claims-differ:"+what, fmt.Sprintf("%s: %s: %s (signed claims %v)", ctx, what, fmt.Sprint(args...), want))
 	}
 	if vj == nil {
 		r.Violation("C09/nil-token-without-error", ctx)
